@@ -200,7 +200,10 @@ UNIT = {
         {'rule': 'R3', 'find': '.ok_or_else(|| PdfError::Other{ msg: "file header is missing".to_string() })', 'replace': '.ok_or(PdfError::Other)'},
         {'rule': 'R2', 'find': 'self.', 'replace': 'this.', 'count': 2},
      ]},
-  'locate_xref_offset': {'kind': 'fn', 'file': F, 'container': TRAIT, 'name': 'locate_xref_offset', 'props': ['C17', 'C01'],
+  'locate_xref_offset': {'kind': 'fn', 'file': F, 'container': TRAIT, 'name': 'locate_xref_offset',
+     # C02: "newest section" = the one the LAST startxref names; read_xref_table_and_trailer's `newest_trailer` (C02) starts from
+     # `this.locate_xref_offset()`, whose trait contract is the one proved here
+     'props': ['C02', 'C17', 'C01'],
      'ensures': [
         ('startxref_is_token_after_last_keyword', 'r matches Ok(x) ==> exists|p: int| last_startxref(this.bytes(), p) && usize_of(token_after(this.bytes(), p + 9)) == Some(x)'),
         ('no_keyword_is_error', 'no_startxref(this.bytes()) ==> r is Err'),
